@@ -81,6 +81,31 @@ CHECKS = {
   text="Exploration: (1) generated programs and objects, incl. objects with unrepresentable fields: Run fails exactly when Execute fails and otherwise returns the truth of Execute's value; (2) SetVariable before/after Prepare for every value type is what the script reads and what GetVariable returns, script assignments are read back, unassigned names are null, variables shadow fields; (3) host functions of arity 0-6 returning any type or void are called once per call execution with the script's arguments in order, their result is the call's value, void leaves nothing (and is an error as an operand); (4) only NoOptimize among all flag bytes/slices changes the compiled program (hook digest) and the NoOptimize program still contains unfolded arithmetic; (5) the evalfilter binary is built from /repo and 'run [-json] [-no-optimizer] [-timeout]' must print exactly the type/value/truth or error class that Execute gives in-process for the decoded document; endless scripts stop within 3 s under -timeout 100ms; lex/parse/bytecode/run on arbitrary bytes, token soup and arbitrary (also invalid) JSON exit with status 0 and no Go panic within 10 s.",
   note="CLI cases are process spawns (hundreds, not thousands, in the quick tier). Host functions are not available through the CLI, so CLI scripts are generated without them.",
   ref="DESIGN.md §3 C20"),
+ "C08": dict(
+  technique="fuzzing / property-based testing in journalling worker processes: byte strings, token soup, token-level mutations of valid scripts, faulty programs, odd host objects, and size/depth stressors; oracle: no panic escapes, no nil result, the process survives",
+  text="Exploration: every case is journalled to disk before it runs, so a process killed by a fatal error (stack overflow, concurrent map access) still yields its case as replay. Cases: raw bytes, token soup, delete/duplicate/swap/replace/truncate/splice mutations of the repository's example scripts and of generated programs, generated programs with run-time faults and unbounded recursion, objects with fields of arbitrary kinds plus nil/typed-nil/scalar/channel/unexported/embedded objects, and 44 stressor shapes (nesting of ( [ { - ! if else-if while foreach function switch call index, operator chains, long literals, unterminated openers, four recursion patterns) at 10^3, 10^5 and for the cheap shapes 2*10^6 repetitions (thorough: 2*10^6 for all, scripts up to 8 MiB). Per case: Prepare, then Dump/Run/Execute twice on each object and on a good object; no panic may leave any of them, Execute never returns (nil, nil).",
+  note="Outcomes (error vs value) are counted, not judged. Scripts whose single operations need more memory than a host has (huge ranges, doubling strings) are not generated, as the property excludes them. A 5 s context bounds each case; a time-out is an ordinary outcome here.",
+  ref="DESIGN.md §3 C08"),
+ "C09": dict(
+  technique="property-based testing over endless-script shapes x context kinds with a watchdog; oracle: an error is returned within deadline + 3 s, an expired context prevents execution, terminating scripts are unaffected",
+  text="Exploration: scripts that never terminate by construction (every loop construct, constant-folded and field-dependent conditions, nested loops, loops inside user functions at call depth 1-4, functions spinning inside loops, recursion ending in a loop, foreach over ranges up to 10^4 inside an endless while, busy bodies) run under contexts that are already cancelled, past their deadline, expire after 1-300 ms, or are cancelled from another goroutine after 0-100 ms, through Run and Execute, with and without optimizer. A watchdog goroutine reports a call that has not returned deadline + 3 s after the context ended; already-expired contexts must prevent the first statement; a control group of terminating programs under a 30 s deadline must return what it returns without a context.",
+  note="Uses real time: the 3 s margin is >= 1000x the normal latency and is the subject of the property. A single huge built-in operation cannot be interrupted and is excluded by the property itself (ranges stay <= 10^4).",
+  ref="DESIGN.md §3 C09"),
+ "C10": dict(
+  technique="exhaustive built-in x argument-type-tuple enumeration plus generated programs executed in a worker under strace -f; oracle: allow-list over the syscall log between markers",
+  text="Exploration with a monitor: a worker process runs under strace -f; between BEGIN/END markers it calls EVERY function registered in the environment (names via the hook) with EVERY tuple of the 8 value types up to arity 3 (584 tuples per function, ~19000 script executions through Execute and Run) using path-, URL-, host:port-, command- and environment-like strings, then the time functions under 8 TZ settings, then generated programs mixed with print/printf/getenv/now/sprintf/replace/split/match. The syscall log in that window must contain no open with a write/create flag, no read-only open outside the time-zone database, no unlink/rename/mkdir/rmdir/chmod/truncate/link/chown/utime, no socket/connect/bind/send/recv, no execve/fork/vfork and no clone without CLONE_THREAD.",
+  note="Exhaustive only over (function x argument-type tuple); values are sampled, so a capability hidden behind one magic argument value is out of reach, and library paths no script can drive are not examined. If ptrace/strace is unavailable the check exits 2 (infrastructure), never 0.",
+  ref="DESIGN.md §3 C10"),
+ "C11": dict(
+  technique="generated concurrent workloads under the Go race detector with a sequential reference for verdicts and a lost-update counter",
+  text="Exploration: rapid draws workloads - one shared prepared evaluator used by 2-16 goroutines x 20-200 Run calls on different objects (scripts with fields, a persistent counter updated by = / ++ / +=, regexps, built-ins, user functions), 2-16 goroutines each preparing and running private evaluators with shared and distinct regexp patterns, or both, under GOMAXPROCS 2/4/16 with optional yields. The binary is built with -race and halt_on_error; each workload is journalled before it starts so a race report or a fatal 'concurrent map' error yields the workload as replay. Every verdict must equal the sequential verdict for that object and the counter must equal the number of runs.",
+  note="Schedules are sampled, not enumerated; the race detector's happens-before analysis is what makes a few hundred workloads meaningful. Only Run on a shared evaluator is promised to be safe, so Execute/SetVariable are not called concurrently on one evaluator.",
+  ref="DESIGN.md §3 C11"),
+ "C19": dict(
+  technique="property-based testing: repeated Prepare/run in one process and across worker processes, comparing compiled program (hook), results, host calls and variables",
+  text="Exploration: scripts with hash literals (keys of different types that print alike, repeated keys, expression keys, nesting), hashes from map fields, keys(), foreach over hashes, string(h), several user functions and many constants are prepared 20 (thorough 60) times with and without optimizer and run 3 times per evaluator: compiled constants, main bytecode and function bodies (hook), results, host-call sequences and variables must be identical every time. The same cases are executed in 4 (thorough 16) separate processes (different map-iteration seeds and addresses) and must agree there too.",
+  note="now()/time()/getenv() are not generated. Runs that hit the 2 s safety deadline are dropped.",
+  ref="DESIGN.md §3 C19"),
 }
 
 def main():
@@ -110,7 +135,7 @@ def main():
                       kind_free_text="Go module: rapid v1.3.0 property tests + native go fuzz targets + reference interpreter (harness/lang), driven by /verif/check")],
         checks=checks,
         notes="Family: property-based testing and fuzzing only. ./check <ID> <tier> exits 0/1/2 (2 = infrastructure trouble, never a verdict). VERIF_SEED selects the rapid seeds. known_findings.json lists open findings (printed as KNOWN-FINDING) and fixed ones.",
-        not_applicable=[dict(property_id=p, reason="check not built yet in this session (planned in DESIGN.md §3); not claimed until it exists") for p in ALL if p not in CHECKS],
+        not_applicable=[dict(property_id=p, reason="check not built") for p in ALL if p not in CHECKS],
     )
     with open(os.path.join(ROOT, "MANIFEST.json"), "w") as fh:
         json.dump(m, fh, indent=1)
